@@ -13,6 +13,7 @@ import (
 	"sort"
 	"strconv"
 	"strings"
+	"time"
 
 	"verifharness/hx"
 
@@ -830,31 +831,245 @@ func kind(ans string) string {
 	return strings.Fields(ans)[0]
 }
 
-func runCase(r *hx.Run, sub uint64, ops []string) {
-	r.Case(sub)
+// ---------------------------------------------------------------------------------------------
+// a case = simulate (real code + oracle, nothing written) -> [minimise a new kind of failure] -> emit
+
+type failure struct {
+	oracle, detail string
+	sig            map[string]string
+	at             int // index of the request at which it was observed
+}
+
+func (f failure) key() string {
+	ks := make([]string, 0, len(f.sig))
+	for k, v := range f.sig {
+		ks = append(ks, k+"="+v)
+	}
+	sort.Strings(ks)
+
+	return f.oracle + "|" + strings.Join(ks, ";")
+}
+
+type opOut struct {
+	f        []string // the request without its tree prefix
+	full     string   // the answer line (with the trace if the tree is traced)
+	ans      string
+	traced   bool
+	nEvents  int
+	realm    string // view: the realm of the new view
+	copySize int    // copy / copyb answered ok: entries of the source view
+	copyOK   bool
+}
+
+type caseResult struct {
+	outs    []opOut
+	fails   []failure
+	cbCalls int
+	counts  map[string]int
+	hung    bool
+}
+
+// opTimeout: a single request takes microseconds; a request that has not returned by then hangs (a lock that is still held, ...).
+// Generous because the machine is shared.
+const opTimeout = 60 * time.Second
+
+// guarded runs fn with a watchdog; false = it did not return in time (its goroutine is abandoned).
+func guarded(fn func()) bool {
+	done := make(chan struct{})
+	go func() {
+		defer close(done)
+		fn()
+	}()
+	select {
+	case <-done:
+		return true
+	default:
+	}
+	t := time.NewTimer(opTimeout)
+	defer t.Stop()
+	select {
+	case <-done:
+		return true
+	case <-t.C:
+		return false
+	}
+}
+
+func simulate(ops []string) *caseResult {
+	res := &caseResult{counts: map[string]int{}}
 	ws := [2]*world{newWorld(), newWorld()}
 	os := [2]*oracle{newOracle(), newOracle()}
-	bigIter, mutations, closedAnswers := 0, 0, 0
-	realms := map[string]struct{}{}
-	for _, op := range ops {
+	for at, op := range ops {
 		f := strings.Fields(op)
+		if len(f) == 0 { // an empty line (hand-made replay): the model answers bad-op, too
+			res.outs = append(res.outs, opOut{f: []string{"bad-op"}, ans: "bad-op", full: "bad-op"})
+
+			continue
+		}
 		tree := 0
-		if f[0] == "2" {
+		if f[0] == "2" && len(f) > 1 {
 			tree, f = 1, f[1:]
 		}
 		w, o := ws[tree], os[tree]
+		out := opOut{f: f}
 		var ans string
 		want := "bad-op"
 		var wantTr []string
-		traced := false
+		fail := func(oracle, detail string, sig map[string]string) {
+			res.fails = append(res.fails, failure{oracle: oracle, detail: detail, sig: sig, at: at})
+		}
+		returned := true
 		if f[0] == "copy" || f[0] == "copyb" {
-			if p := hx.Safely(func() { ans = execCopy(ws, f) }); p != "" {
-				ans = "panic"
+			returned = guarded(func() {
+				if p := hx.Safely(func() { ans = execCopy(ws, f) }); p != "" {
+					ans = "panic"
+				}
+			})
+			if returned {
+				want, out.copySize = expectCopy(os, f)
+				out.copyOK = want == "ok"
+				ws[0].events, ws[1].events = nil, nil
 			}
-			size := 0
-			want, size = expectCopy(os, f)
-			if want == "ok" && f[0] == "copyb" {
-				switch n := atoi(f[5]); {
+		} else {
+			out.traced = w.spy
+			if p := hx.Safely(func() { wantTr = o.expectTrace(f) }); p != "" {
+				wantTr = []string{"bad-op"}
+			}
+			returned = guarded(func() {
+				if p := hx.Safely(func() { ans = w.exec(f) }); p != "" {
+					ans = "panic"
+				}
+			})
+			if returned {
+				if p := hx.Safely(func() { want = o.expect(f) }); p != "" {
+					want = "bad-op"
+				}
+			}
+		}
+		if !returned {
+			// the request never returned: report, and give the case up (its stores may be locked for ever)
+			fail("hang", fmt.Sprintf("%q did not return within %v", op, opTimeout), map[string]string{"op": f[0], "oracle": "hang"})
+			out.ans, out.full = "hang", "hang"
+			res.outs = append(res.outs, out)
+			res.hung = true
+
+			break
+		}
+		out.ans, out.full = ans, ans
+		if out.traced {
+			// what reached the store below the wrappers and the debug callbacks, in order
+			out.full = strings.Join(append([]string{ans, ";"}, w.events...), " ")
+			out.nEvents = len(w.events)
+			if got, wantS := strings.Join(w.events, " "), strings.Join(wantTr, " "); got != wantS {
+				fail("wrapper-forwarding", fmt.Sprintf("%q through the stack %q: forwarded calls / callbacks [%s], expected [%s] (callbacks of the "+
+					"debug layers whose filter has the command, outermost first; the call; one Flush per flushkv layer after a mutation that "+
+					"succeeded)", op, w.stackOf(f), got, wantS), map[string]string{"op": f[0], "oracle": "wrapper-forwarding"})
+			}
+		}
+		w.events = nil
+		for _, d := range w.retainedFails {
+			fail("retained-keys-differ", d, map[string]string{"op": f[0], "oracle": "retained-keys-differ"})
+		}
+		w.retainedFails = nil
+		if want != ans {
+			fail("ordered-map-contract", fmt.Sprintf("%q answered %q, a single ordered map keyed by realm||key answers %q", op, ans, want),
+				map[string]string{"op": f[0], "want": kind(want), "got": kind(ans)})
+		}
+		if f[0] == "view" && ans == "ok" {
+			out.realm = o.realms[atoi(f[1])]
+		}
+		res.outs = append(res.outs, out)
+	}
+	res.cbCalls = ws[0].cbCalls + ws[1].cbCalls
+	for _, w := range ws {
+		for k, n := range w.counts {
+			res.counts[k] += n
+		}
+	}
+
+	return res
+}
+
+// minimise: delta debugging on the request list - the smallest history found (within the budget) on which the real code
+// still fails with the same oracle and signature.
+func minimise(ops []string, key string, budget int) []string {
+	failsWith := func(cand []string) bool {
+		budget--
+		for _, f := range simulate(cand).fails {
+			if f.key() == key {
+				return true
+			}
+		}
+
+		return false
+	}
+	cur := ops
+	n := 2
+	for len(cur) >= 2 && budget > 0 {
+		chunk := (len(cur) + n - 1) / n
+		reduced := false
+		for i := 0; i < len(cur) && budget > 0; i += chunk {
+			cand := append(append([]string{}, cur[:i]...), cur[min(i+chunk, len(cur)):]...)
+			if failsWith(cand) {
+				cur, reduced = cand, true
+				n = max(n-1, 2)
+
+				break
+			}
+		}
+		if !reduced {
+			if chunk == 1 {
+				break
+			}
+			n = min(n*2, len(cur))
+		}
+	}
+
+	return cur
+}
+
+var minimisedKeys = map[string]bool{}
+var replaying bool
+
+func runCase(r *hx.Run, sub uint64, ops []string) {
+	res := simulate(ops)
+	// a kind of failure seen for the first time: minimise its history and run the minimised history as a case of its own
+	// FIRST, so that the finding the check reports (and its replay file) carries the small failing input
+	if !replaying {
+		for _, f := range res.fails {
+			k := f.key()
+			if minimisedKeys[k] || len(minimisedKeys) >= 8 || f.oracle == "hang" {
+				continue
+			}
+			minimisedKeys[k] = true
+			small := minimise(ops[:f.at+1], k, 600)
+			r.Count("minimised-failing-histories")
+			r.Count(fmt.Sprintf("minimised:%d->%d-requests", len(ops), len(small)))
+			emitCase(r, 0, small, simulate(small))
+		}
+	}
+	emitCase(r, sub, ops, res)
+}
+
+func emitCase(r *hx.Run, sub uint64, ops []string, res *caseResult) {
+	r.Case(sub)
+	bigIter, mutations, closedAnswers := 0, 0, 0
+	realms := map[string]struct{}{}
+	nf := 0
+	for i, out := range res.outs {
+		f, ans := out.f, out.ans
+		r.Line(ops[i], out.full)
+		for ; nf < len(res.fails) && res.fails[nf].at == i; nf++ {
+			fl := res.fails[nf]
+			r.Fail(fl.oracle, fl.detail+fmt.Sprintf("; history (%d requests): %v", i+1, r.CaseLines()), fl.sig)
+		}
+		if out.traced {
+			r.CountN("traced-events", out.nEvents)
+			r.Count(fmt.Sprintf("trace-len:%d", min(out.nEvents, 6)))
+		}
+		if out.copyOK {
+			if f[0] == "copyb" {
+				switch n, size := atoi(f[5]), out.copySize; {
 				case n == 0:
 					r.Count("copyb:batch-size:none")
 				case n < size-1:
@@ -869,54 +1084,15 @@ func runCase(r *hx.Run, sub uint64, ops []string) {
 					r.Count("copyb:batch-size:>size+1")
 				}
 			}
-			if want == "ok" {
-				r.Count(fmt.Sprintf("copy:trees:%s->%s", f[1], f[3]))
-			}
-			ws[0].events, ws[1].events = nil, nil
-		} else {
-			traced = w.spy
-			if p := hx.Safely(func() { wantTr = o.expectTrace(f) }); p != "" {
-				wantTr = []string{"bad-op"}
-			}
-			if p := hx.Safely(func() { ans = w.exec(f) }); p != "" {
-				ans = "panic"
-			}
-			if p := hx.Safely(func() { want = o.expect(f) }); p != "" {
-				want = "bad-op"
-			}
-		}
-		if traced {
-			// what reached the store below the wrappers and the debug callbacks, in order
-			r.Line(op, strings.Join(append([]string{ans, ";"}, w.events...), " "))
-			if got, wantS := strings.Join(w.events, " "), strings.Join(wantTr, " "); got != wantS {
-				r.Fail("wrapper-forwarding", fmt.Sprintf("%q through the stack %q: forwarded calls / callbacks [%s], expected [%s] (callbacks of the "+
-					"debug layers whose filter has the command, outermost first; the call; one Flush per flushkv layer after a mutation that "+
-					"succeeded); history: %v", op, w.stackOf(f), got, wantS, r.CaseLines()),
-					map[string]string{"op": f[0], "oracle": "wrapper-forwarding"})
-			}
-			r.CountN("traced-events", len(w.events))
-			r.Count(fmt.Sprintf("trace-len:%d", min(len(w.events), 6)))
-		} else {
-			r.Line(op, ans)
-		}
-		w.events = nil
-		for _, d := range w.retainedFails {
-			r.Fail("retained-keys-differ", d+"; history: "+fmt.Sprint(r.CaseLines()),
-				map[string]string{"op": f[0], "oracle": "retained-keys-differ"})
-		}
-		w.retainedFails = nil
-		if want != ans {
-			r.Fail("ordered-map-contract", fmt.Sprintf("%q answered %q, a single ordered map keyed by realm||key answers %q; history: %v",
-				op, ans, want, r.CaseLines()),
-				map[string]string{"op": f[0], "want": kind(want), "got": kind(ans)})
+			r.Count(fmt.Sprintf("copy:trees:%s->%s", f[1], f[3]))
 		}
 		r.Count("op:" + f[0])
 		r.Count("ans:" + kind(ans))
 		switch f[0] {
 		case "iter", "iterk", "iterc":
-			nf := len(strings.Fields(ans))
-			r.Count(fmt.Sprintf("iter-calls:%d", min(nf-1, 6)))
-			if nf >= 3 {
+			n := len(strings.Fields(ans))
+			r.Count(fmt.Sprintf("iter-calls:%d", min(n-1, 6)))
+			if n >= 3 {
 				bigIter++
 			}
 		case "set", "del", "delp", "clear", "commit", "commitf", "copy", "copyb":
@@ -925,23 +1101,22 @@ func runCase(r *hx.Run, sub uint64, ops []string) {
 			}
 		case "view":
 			if ans == "ok" {
-				realms[o.realms[atoi(f[1])]] = struct{}{}
-				r.Count(fmt.Sprintf("realm-len:%d", len(o.realms[atoi(f[1])])))
+				realms[out.realm] = struct{}{}
+				r.Count(fmt.Sprintf("realm-len:%d", len(out.realm)))
 			}
 		}
 		if ans == "closed" {
 			closedAnswers++
 		}
 	}
-	w := &world{cbCalls: ws[0].cbCalls + ws[1].cbCalls, counts: ws[0].counts}
-	for k, n := range ws[1].counts {
-		w.counts[k] += n
-	}
 	if closedAnswers > 0 {
 		r.Count("case:saw-closed")
 	}
-	r.CountN("debug-callbacks", w.cbCalls)
-	for k, n := range w.counts {
+	if res.hung {
+		r.Count("case:gave-up-after-hang")
+	}
+	r.CountN("debug-callbacks", res.cbCalls)
+	for k, n := range res.counts {
 		r.CountN(k, n)
 	}
 	if len(realms) >= 2 && bigIter >= 1 && mutations >= 3 {
@@ -1044,6 +1219,7 @@ func main() {
 		"{00,01,7f,ff} of length 0..3, values of length 0..4, both directions + default; non-trivial = at least two distinct " +
 		"realms created, one iteration reporting >= 2 entries and three successful mutations; distinct by sha256 of the op lines"
 	if lines := r.ReplayLines(); lines != nil {
+		replaying = true
 		runCase(r, 0, lines)
 		r.Finish()
 
